@@ -377,7 +377,7 @@ size_t derDec(u32* tag, const octet** val, size_t* len, const octet der[],
 		len = &l;
 	// обработать TL
 	tl_count = derTLDec(tag, len, der, count);
-	if (tl_count == SIZE_MAX || tl_count + *len > count)
+	if (tl_count == SIZE_MAX || *len > count - tl_count)
 		return SIZE_MAX;
 	// обработать V
 	if (val)
